@@ -726,3 +726,59 @@ _C08_LOOP = {
     'tie_theorem': 'C08.src_remap_loop_simulates_hstep'}
 _C08.append(_C08_LOOP)
 SPECS['C08'] = _C08
+# --- round 3e: C16, the text builders of boltons.tbutils (harness/py2lean_c16.py: spec key `translator`; notes/SRCTIE.md
+# section "C16"; runtime lean/BoltonsVerif/PyRtC16.lean).  Types: Str | Int | Nat | Bool | List T | Option T | T × U |
+# FrameD (a frame dict of a ParsedException: keys filepath / lineno / funcname present with str values, `source_line`
+# read with .get) | Callpoint (object: module_path, lineno (int >= 0), func_name, line) | DLine (a _DeferredLine).
+# `self_attrs`: attributes of `self` that become parameters; `self_obj`: `self` is an object of that declared type;
+# `locals`: declared types of locals that hold None at first.  Callees come before their callers.
+_C16 = [
+    {'qualname': 'ParsedException.to_string', 'lean_name': 'ParsedException.to_string', 'method': True,
+     'self_attrs': {'frames': 'List FrameD', 'exc_type': 'Str', 'exc_msg': 'Str'}, 'params': {}, 'result': 'Str',
+     'tie_theorem': 'C16.src_to_string_eq_model'},
+    {'qualname': '_repeated_line_note', 'lean_name': 'repeated_line_note', 'params': {'count': 'Int'},
+     'result': 'Str', 'tie_theorem': 'C16.src_repeated_line_note_eq_model'},
+    {'qualname': 'Callpoint.tb_frame_str', 'lean_name': 'Callpoint.tb_frame_str', 'method': True,
+     'self_obj': 'Callpoint', 'params': {}, 'result': 'Str', 'tie_theorem': 'C16.src_tb_frame_str_eq_model'},
+    {'qualname': 'TracebackInfo.get_formatted', 'lean_name': 'TracebackInfo.get_formatted', 'method': True,
+     'self_attrs': {'frames': 'List Callpoint'}, 'params': {}, 'result': 'Str',
+     'locals': {'last_site': 'Option (Str × Nat × Str)'},
+     'tie_theorem': 'C16.src_get_formatted_eq_model'},
+]
+for _sp in _C16:
+    _sp.update(module='boltons.tbutils', kind='function', translator='py2lean_c16', gen_file='tbutils_c16')
+SPECS['C16'] = _C16
+# C16, second group: ExceptionInfo.  `tb_info.frames`: the attribute path `self.tb_info.frames` (a parameter
+# `self_tb_info_frames`); `self_classes`: the declared class of the sub-object, whose translated methods may be called;
+# `region`: the statements of from_exc_info that compute the display name (first assignment of `type_str` up to the
+# assignment of `val_str`), over `exc_type: ExcType` (`__qualname__: str`, `__module__`: a str or something else).
+_C16B = [
+    {'qualname': 'ExceptionInfo.get_formatted_exception_only', 'lean_name': 'ExceptionInfo.get_formatted_exception_only',
+     'method': True, 'self_attrs': {'exc_type': 'Str', 'exc_msg': 'Str'}, 'params': {}, 'result': 'Str',
+     'tie_theorem': 'C16.src_ei_exc_only_eq_model'},
+    {'qualname': 'ExceptionInfo.get_formatted', 'lean_name': 'ExceptionInfo.get_formatted', 'method': True,
+     'self_attrs': {'exc_type': 'Str', 'exc_msg': 'Str', 'tb_info.frames': 'List Callpoint'},
+     'self_classes': {'tb_info': 'TracebackInfo'}, 'params': {}, 'result': 'Str',
+     'tie_theorem': 'C16.src_ei_get_formatted_eq_model'},
+    {'qualname': 'ExceptionInfo.from_exc_info', 'lean_name': 'ExceptionInfo.type_str',
+     'region': {'start': 'type_str', 'stop': 'val_str', 'result': 'type_str'},
+     'locals': {'type_mod': 'Option Str'}, 'params': {'exc_type': 'ExcType'}, 'result': 'Str',
+     'tie_theorem': 'C16.src_type_str_eq_model'},
+]
+for _sp in _C16B:
+    _sp.update(module='boltons.tbutils', kind='function', translator='py2lean_c16', gen_file='tbutils_c16')
+_C16.extend(_C16B)
+# `_some_str(value)`: `value` is an arbitrary object (`StrObj`: its `__str__` returns a str or raises - `none`, the
+# model's `Option Str` argument of `C16.someStr`).
+_C16C = [{'qualname': '_some_str', 'lean_name': 'some_str', 'params': {'value': 'StrObj'}, 'result': 'Str',
+          'tie_theorem': 'C16.src_some_str_eq_model', 'module': 'boltons.tbutils', 'kind': 'function',
+          'translator': 'py2lean_c16', 'gen_file': 'tbutils_c16'}]
+_C16.extend(_C16C)
+# the second copy of the display-name computation: format_exception_only (`stype = ...` up to `if not issubclass(...)`);
+# `false_before`: the guard `if etype is None:` in front of the region is false for an `etype : ExcType`.
+_C16D = [{'qualname': 'format_exception_only', 'lean_name': 'format_exception_only_type_str',
+          'region': {'start': 'stype', 'stop_test': 'issubclass', 'result': 'stype', 'false_before': ['etype is None']},
+          'locals': {'smod': 'Option Str'}, 'params': {'etype': 'ExcType'}, 'result': 'Str',
+          'tie_theorem': 'C16.src_feo_type_str_eq_model', 'module': 'boltons.tbutils', 'kind': 'function',
+          'translator': 'py2lean_c16', 'gen_file': 'tbutils_c16'}]
+_C16.extend(_C16D)
